@@ -323,7 +323,7 @@ func (r *runner) compareSearch(label string, s *Search, corpus *model.Corpus) bo
 			return false
 		}
 		for i, a := range s.Aggs {
-			if msg := compareAgg(a, got[i], model.Agg(want, a.Func, a.Field, a.GroupBy)); msg != "" {
+			if msg := checkAgg(a, got[i], want); msg != "" {
 				r.violate("aggregation", "%s: search %q agg %+v: %s", label, s.Q.SeqQL(), a, msg)
 				return false
 			}
@@ -343,6 +343,107 @@ func padAggs(got []*pb.SearchResponse_Agg, n int) []*pb.SearchResponse_Agg {
 		return out
 	}
 	return got
+}
+
+// tsBin is one (token, time bucket) cell of a time-series aggregation as returned.
+type tsBin struct {
+	Tok                string
+	MID                uint64
+	Total              int64
+	Sum, Min, Max      float64
+	Samples            []float64
+}
+
+// compareTS checks an aggregation that carries its own interval: the matching documents are cut
+// into buckets of that interval and every (group, bucket) cell that holds a value must be reported
+// exactly, in a bucket of THIS aggregation's interval. Cells without a value (and the accounting of
+// documents that lack the field, which seq-db does not spread over buckets) are not compared.
+func compareTS(a simenv.AggReq, got []tsBin, docs []*model.Doc) string {
+	iv := uint64(a.Interval)
+	parts := map[uint64][]*model.Doc{}
+	for _, d := range docs {
+		b := d.MID - d.MID%iv
+		parts[b] = append(parts[b], d)
+	}
+	type cell struct {
+		tok string
+		mid uint64
+	}
+	wantCells := map[cell]*model.Bin{}
+	for b, ds := range parts {
+		for tok, wb := range model.Agg(ds, a.Func, a.Field, a.GroupBy).Bins {
+			if wb.Total > 0 && tok != "_not_exists" {
+				wantCells[cell{tok, b}] = wb
+			}
+		}
+	}
+	seen := map[cell]bool{}
+	for _, g := range got {
+		if g.Total == 0 || g.Tok == "_not_exists" {
+			continue
+		}
+		c := cell{g.Tok, g.MID}
+		if seen[c] {
+			return fmt.Sprintf("cell %q@%d reported twice", g.Tok, g.MID)
+		}
+		seen[c] = true
+		wb := wantCells[c]
+		if wb == nil {
+			return fmt.Sprintf("unexpected cell %q@%d (total %d) for interval %d", g.Tok, g.MID, g.Total, iv)
+		}
+		if g.Total != wb.Total {
+			return fmt.Sprintf("cell %q@%d total %d, model %d", g.Tok, g.MID, g.Total, wb.Total)
+		}
+		if a.Field != "" {
+			if (a.Field != "big" && g.Sum != wb.Sum) || g.Min != wb.Min || g.Max != wb.Max {
+				return fmt.Sprintf("cell %q@%d sum/min/max %v/%v/%v, model %v/%v/%v", g.Tok, g.MID, g.Sum, g.Min, g.Max, wb.Sum, wb.Min, wb.Max)
+			}
+			if a.Func == "quantile" && len(wb.Samples) <= 8096 {
+				gs := append([]float64(nil), g.Samples...)
+				sort.Float64s(gs)
+				if len(gs) != len(wb.Samples) {
+					return fmt.Sprintf("cell %q@%d has %d samples, model %d", g.Tok, g.MID, len(gs), len(wb.Samples))
+				}
+				for i := range gs {
+					if gs[i] != wb.Samples[i] {
+						return fmt.Sprintf("cell %q@%d sample %d is %v, model %v", g.Tok, g.MID, i, gs[i], wb.Samples[i])
+					}
+				}
+			}
+		}
+	}
+	var missing []cell
+	for c := range wantCells {
+		if !seen[c] {
+			missing = append(missing, c)
+		}
+	}
+	if len(missing) > 0 {
+		sort.Slice(missing, func(i, j int) bool {
+			if missing[i].mid != missing[j].mid {
+				return missing[i].mid < missing[j].mid
+			}
+			return missing[i].tok < missing[j].tok
+		})
+		c := missing[0]
+		return fmt.Sprintf("cell %q@%d missing (model total %d) for interval %d", c.tok, c.mid, wantCells[c].Total, iv)
+	}
+	return ""
+}
+
+// checkAgg compares one returned aggregation with the model over the matching documents.
+func checkAgg(a simenv.AggReq, got *pb.SearchResponse_Agg, docs []*model.Doc) string {
+	if a.Interval > 0 && a.Func != "unique" {
+		var bins []tsBin
+		for _, b := range got.Timeseries {
+			if b.Hist == nil {
+				continue
+			}
+			bins = append(bins, tsBin{Tok: b.Label, MID: uint64(b.Ts.AsTime().UnixMilli()), Total: b.Hist.Total, Sum: b.Hist.Sum, Min: b.Hist.Min, Max: b.Hist.Max, Samples: b.Hist.Samples})
+		}
+		return compareTS(a, bins, docs)
+	}
+	return compareAgg(a, got, model.Agg(docs, a.Func, a.Field, a.GroupBy))
 }
 
 func compareAgg(a simenv.AggReq, got *pb.SearchResponse_Agg, want *model.AggExpect) string {
@@ -670,7 +771,7 @@ func (r *runner) asyncWait(a *AsyncReq) {
 		return
 	}
 	for i, ag := range s.Aggs {
-		if msg := compareAgg(ag, gotAggs[i], model.Agg(want, ag.Func, ag.Field, ag.GroupBy)); msg != "" {
+		if msg := checkAgg(ag, gotAggs[i], want); msg != "" {
 			r.violate("async_result", "asynchronous search %q agg %+v: %s", s.Q.SeqQL(), ag, msg)
 			return
 		}
